@@ -725,11 +725,14 @@ def run(ctx):
         seen = set()
         for job, r in zip(jobs, eruns):
             ctx.account(r, MODULE, f"{job[0]} part {job[1]}/{job[2]}")
-            for c in r.emitted:
-                k = (c["kind"],) + tuple(c["id"])
+            for c in r.emitted:  # TLC may print a transition twice; identical lines are one case
+                k = json.dumps(c, sort_keys=True)
                 if k not in seen:
                     seen.add(k)
                     cases.append(c)
+        ids = [(c["kind"],) + tuple(c["id"]) for c in cases]
+        if len(set(ids)) != len(ids):
+            raise tlc.TlcError("two different emitted cases share an identity")
         acts = {"value": "ValueCase", "params": "ParamsCase", "result": "ResultCase", "results": "ResultsCase",
                 "fname": "FileNameCase"}
         for c in cases:  # every emitted case is one firing of its action
